@@ -150,3 +150,13 @@ claim("C11", EXPRJ,
       "by abstraction + perturbation; TLC validates each reported match: substituting the bindings in the pattern gives the "
       "expression up to the argument order of commutative operators, with a single binding per joker.",
       "TLC; soundness of reported matches only", "DESIGN.md 5/C11", "ExprJudge")
+
+claim("C08", SM,
+      "Intern.tla: the hash-consing machine (table from structural-key class to the token of the unique live object; Build returns "
+      "the existing token or a fresh one; every identity round-trip returns the expression's own token); InternKeys.tla defines "
+      "structural keys, integer normalisation modulo 2^width and the width rule, evaluated by TLC per key pool. TLC checks "
+      "Injective / TokensDense / NeverForgets and every (state, operation) over a 15-key pool is replayed on miasm (object identity "
+      "as token, ==/hash cross-checked against identity, widths against the rule); recorded histories over ~190 keys (awkward names, "
+      "widths 1..256) with repr->parse, pickle, deepcopy, copy, replace-nothing and visit round-trips are validated by TLC.",
+      "TLC; textual and pickle formats are not modelled (round-trips are identity events); CPython object identity of live objects",
+      "DESIGN.md 5/C08", "Intern")
